@@ -2,7 +2,8 @@
 {
  "id": "QBE.bitfield.store.top",
  "file": "qbe.c", "function": "funcstore", "also_functions": ["funcbits", "qbetype"],
- "properties": {"C01": "contract", "C10": "contract", "C19": "safety"},
+ "properties": {"C01": "contract"},
+ "finding": "FAILS on the pinned tree (genuine defect): funcstore() computes the value of `s.f = v` with funcbits() on v << before; for a char/short field with after == 0 funcbits emits no shl, so bits of v above the field width survive the sar/shr. `struct {short a:8, b:8;} s; int f(int x){return s.b = x;}`: f(0x180) yields 384, C (and gcc/clang) -128; `struct {unsigned char a:3, b:5;} u; return u.b = x;` with 0xff yields 255 instead of 31",
  "mode": "dfcc", "enforce": "funcstore/funcstore_contract", "post_macro": "POST_TOP",
  "replace_calls": {"funcinst": "rec_funcinst", "funccopy": "rec_unreachable_funccopy"},
  "kind": "proof",
